@@ -91,6 +91,28 @@ def malformed(ctx, lab):
                     ctx.violation("malformed_response:" + e.split(" ")[0], e + "; request with malformed attribute list", observed=a.rep.hex()[:200])
 
 
+def length_lies(ctx, lab):
+    """Message-length fields that point beyond the datagram (up to the 16-bit maximum, where 20 + length wraps): such a
+    request cannot be answered correctly; whatever is answered must be a correct response, and nothing may crash."""
+    rng = ctx.rng
+    t = stun.gen_tid(rng, True)
+    for body in (b"", stun.attr(0x8022, bytes(0x100)), stun.gen_attrs(rng, 4 * rng.randrange(0x40, 0x60))):
+        for L in (len(body) + 4, len(body) + 0x100, 0x0100, 0x7FFC, 0x8000, 0xFFEB, 0xFFEC, 0xFFF0, 0xFFFC, 0xFFFF, rng.randrange(0x100, 0x10000)):
+            if L <= len(body):
+                continue
+            m = stun.msg(1, t, body, length=L)
+            if lab.identified(m, "udp") != sigref.STUN:
+                continue
+            a = lab.ask(m, rng.choice(["udp", "udp", "tcp"]))
+            ctx.stats["length_lies"] += 1
+            ctx.nontrivial("length_lie", len(body), L)
+            if a.rep is not None and stun.is_stun_response(a.rep):
+                ctx.violation("answered:length_beyond_data", "binding request whose length field (%d) points %d bytes beyond the message was answered" % (
+                    L, L - len(body)), observed=a.rep.hex()[:200], expected="silence")
+    # after the lot: an ordinary request is still answered (the responder is alive)
+    positive(ctx, lab, "magic_empty", v6=False, tr="udp")
+
+
 def shard(ctx, budget_s):
     rng = ctx.rng
     deadline = time.time() + budget_s
@@ -124,6 +146,7 @@ def shard(ctx, budget_s):
                 lab._pin_e = None
         negative_types(ctx, lab, [t for t in (rng.randrange(0x4000) for _ in range(6)) if t != 1])
         malformed(ctx, lab)
+        length_lies(ctx, lab)
         n += 1
     if ctx.shard == 0:
         r, t, k = stun.gen_request(rng, "magic_long_cr")
